@@ -469,7 +469,17 @@ def topo_archetypes(rng, zones):
     def aff_ns(p): p["aff"] = [topo_term("zone", "x", ns=["other", "default"])]
     def aff_nssel(p): p["aff"] = [topo_term("zone", "x", nsSel={"tier": "prod"})]
     def daemon_shaped(p): p["owner"] = "ds:dsx"; p["labels"]["app"] = "x"
-    fns = [plain_x, plain_s, plain_s_zone, self_anti_host, self_anti_zone, anti_x, anti_x_labelled, aff_x, self_aff_zone, self_aff_host,
+    # ONE term (same key, selector, namespace = one topology group) carried by pods with DIFFERENT labels: the carrier is matched by it
+    # (db_*), is not (guard_*), or a matcher carries nothing (plain_d)
+    def guard_host(p): p["labels"]["app"] = "g"; p["anti"] = [topo_term("host", "d")]
+    def db_host(p): p["labels"]["app"] = "d"; p["anti"] = [topo_term("host", "d")]
+    def guard_zone(p): p["labels"]["app"] = "g"; p["anti"] = [topo_term("zone", "d")]
+    def db_zone(p): p["labels"]["app"] = "d"; p["anti"] = [topo_term("zone", "d")]
+    def plain_d(p): p["labels"]["app"] = "d"
+    def aff_g_d(p): p["labels"]["app"] = "g"; p["aff"] = [topo_term(rng.choice(["zone", "host"]), "d")]
+    def aff_d_d(p): p["labels"]["app"] = "d"; p["aff"] = [topo_term("zone", "d")]
+    fns = [guard_host, db_host, guard_zone, db_zone, plain_d, aff_g_d, aff_d_d,
+           plain_x, plain_s, plain_s_zone, self_anti_host, self_anti_zone, anti_x, anti_x_labelled, aff_x, self_aff_zone, self_aff_host,
            self_aff_zone_sel, aff_and_anti, pref_anti, pref_aff, spread_zone, spread_zone2, spread_zone_min, spread_host, spread_zone_host,
            spread_limited, spread_limited_terms, spread_two_terms, spread_ignore, spread_honor_taints, spread_honor_tol, spread_matchkeys,
            spread_anyway, spread_ct, spread_other_sel, spread_not_self, spread_pref_zone, other_ns_x, other_ns_spread, anti_ns, anti_allns,
@@ -540,8 +550,11 @@ def topo_bound_pod(rng, name, node, zones):
         bp["labels"] = {"app": rng.choice(["q", "x"])}
         bp["anti"] = [topo_term(rng.choice(["zone", "zone", "host"]), rng.choice(["x", "s", "f"]),
                                 **rng.choice([{}, {}, {"nsAll": True}, {"ns": ["other"]}]))]
-    else:
+    elif r < 0.92:
         bp["labels"] = {"app": "f"}
+    else:                                            # running carrier of a term shared with batch members of another label (guard / db)
+        bp["labels"] = {"app": rng.choice(["g", "g", "d"])}
+        bp["anti"] = [topo_term(rng.choice(["host", "zone"]), "d")]
     if rng.random() < 0.12:
         bp["ns"] = "other"
     r = rng.random()
